@@ -373,7 +373,16 @@ def run(tier, replay=None):
         return v.finish()
 
     # 1. register / stack contract on the actual instructions and the actual initial frame
-    ctx_machine(v, tier, out, exe, libdir)
+    undecodable = None
+    try:
+        ctx_machine(v, tier, out, exe, libdir)
+    except vlib.MachineryError as ex:
+        # an instruction form CtxMachine.tla does not know: the symbolic binding cannot speak, but the dynamic
+        # binding (sentinel registers / MXCSR / stack on the real code) still can; fail as machinery only if it stays silent
+        if "cannot interpret" not in str(ex):
+            raise
+        undecodable = str(ex)
+        v.notes.append(undecodable)
 
     # 2. control transfer: model checking and export
     if tier == "quick":
@@ -429,4 +438,8 @@ def run(tier, replay=None):
                      "entries and exit-function calls; distinct = distinct op sequences (TLC-exported: one shortest history per (model state,last op), at the length bound every one-op extension; TLC-simulated long ones) plus "
                      "seeded process programs; every history contains at least one real switch")
     v.cov["exhaustive"] = False
-    return v.finish()
+    rc = v.finish()
+    if rc == 0 and undecodable:
+        raise vlib.MachineryError(undecodable)
+    return rc
+
